@@ -140,7 +140,7 @@ def dump_one(f: TextIO, data: IOData):
     nactive = one_mo.shape[0]
     nelec = data.nelec or 0
     spinpol = data.spinpol or 0
-    print(f" &FCI NORB={nactive:d},NELEC={nelec:d},MS2={spinpol:d},", file=f)
+    print(f" &FCI NORB={nactive:d},NELEC={int(round(nelec)):d},MS2={int(round(spinpol)):d},", file=f)
     print(f"  ORBSYM= {','.join('1' for v in range(nactive))},", file=f)
     print("  ISYM=1", file=f)
     print(" &END", file=f)
